@@ -187,7 +187,7 @@ CLAIMED.update({
             "THE PROOF: the two-case statement is refuted in Coq, C07_two_case_statement_refuted, and reproduced on /repo; it cannot "
             "arise on maps that tile every scaffold: C07_pretextview_gaps proves, for every tiling map (the hypotheses of C02_completion), the "
             "TWO-case statement -- exactly the join gap or exactly the input gap run of the same two neighbours -- which is the property's "
-            "second sentence for maps PretextView can produce; DESIGN 13.5). The same three-case "
+            "second sentence for maps PretextView can produce, and C07_pretextview_gaps_any_tags the same for tiling maps with ANY tags whenever the run completes; DESIGN 13.5). The same three-case "
             "statement is the oracle that walks every output scaffold against the input on every generated case (PretextView-model "
             "maps: first two cases only). The pinned commit's gapless left-over join is refuted "
             "in Coq, reproduced, fixed, and kept in the corpus. " + PIPE,
